@@ -401,6 +401,8 @@ func cmdCheck(args []string) int {
 			"checker_cmd":              fmt.Sprintf("bin/vcgo check -p %s -tier %s  (VC generator over go/ssa of /repo's working tree; SMT portfolio z3-new 5.1.0, cvc5 1.0.3, z3 4.8.12; %ds per query)", prop.ID, *tier, secs),
 			"trusted_base":             trusted,
 			"functions_under_contract": funcs,
+			"safety_sweep_functions":   prop.Sweep,
+			"safety_sweep_note":        "functions listed under safety_sweep_functions have no contract of their own: they are checked for panics only (index, slice, nil, explicit panic), with loops cut at the invariant `true`, assuming non-nil pointer receiver and pointer parameters; they also appear in functions_under_contract",
 			"by_solver":                bySolver,
 			"solver_ms_total":          totalMs,
 			"solver_wall_s":            solveWall.Seconds(),
